@@ -4,6 +4,47 @@ KERNEL = "Lean 4.33 kernel; axioms propext, Classical.choice, Quot.sound only (c
 TIE = "tools/extract.py (regex translator for constants/tables) and the Rust harness + sjdriver correspondence run (differential testing)"
 
 PROPS = {
+    "C05": dict(
+        lean_targets=["SJ.Props.C05", "SJ.Audit.C05"],
+        configs=dict(quick=["d"], thorough=["d"]),
+        gen_keys=["escape.", "hex.", "swar.", "Escape", "Hex", "Swar"],
+        allowed_axioms=[r".*\._native\.bv_decide\.ax_.*"],
+        rule="esc/escbufs: every Unicode scalar value as a one-character string (quick: all below U+3000, every 251st, "
+             "surrogate-adjacent and plane boundaries, a random 1%), every byte < 0x80 at every offset of strings of every "
+             "length 0..24 over ASCII and mixed 1-4-byte filler, adjacent/leading/trailing escapes, random mixtures up to 500 "
+             "chars; hex4/hex4s: all 65 536 values in lower, upper and random mixed case, all 256 substitutions at each of "
+             "the 4 positions of 7 base groups, 10^5 (thorough 10^7) random four-byte groups, through ByteBuf (exact u16 via "
+             "WTF-8) and String from str/slice/reader; scan: each of \" \\ 00 0a 1f 20 7f 80 ff c3 at every offset of contents "
+             "of every length 0..24 (ASCII and mixed filler), closed and unclosed, after 0..8 spaces, targets &str/String/"
+             "ByteBuf from str/slice/reader (quick: &str-from-slice always plus one rotating combination), two-special and "
+             "multi-chunk contents, random contents. Non-trivial: esc — the string has a byte that must be escaped or a "
+             "non-ASCII character; hex4 — every group; scan — non-empty content; distinct = distinct case lines.",
+        trusted_base=[KERNEL + "; plus bv_decide's per-call axioms (SAT certificate checked by compiled code, Lean.ofReduceBool "
+                      "trust) for the two SWAR chunk lemmas and the two hex OR/shift lemmas",
+                      TIE,
+                      "memchr::memchr2 specified as 'index of the first occurrence of either needle' (external crate)",
+                      "u64::from_le_bytes / wrapping_sub / trailing_zeros / chunks_exact modelled by their documented semantics on BitVec 64"],
+        assumptions=["memchr2 returns the first occurrence of either needle",
+                     "Rust integer primitives (from_le_bytes, wrapping_sub, trailing_zeros, `as` casts, i32 shifts) behave as documented",
+                     "io::Write::write_all on Vec / the recording writer delivers each buffer whole",
+                     "the build uses fast_arithmetic=\"64\" (64-bit Chunk), as on the checked platform"],
+        partial=["the decode side (c05_decode_spec, c05_roundtrip, c05_borrowed, c05_bytes_target, c05_str_source_utf8) is provided "
+                 "by the lead's byte-step parser machine and is not part of this branch; here: serializer escaping "
+                 "(c05_escape_table, c05_escape_spec, c05_escape_buffers_utf8_cut), decode_four_hex_digits (c05_hex_tables, "
+                 "c05_hex4_spec) and the SWAR scanner (c05_swar_first_escape, c05_swar_in_bounds, c05_first_escape_char)"],
+        technique="Lean 4 theorems over all byte strings / all 2^32 hex groups / all slices and start indices; ESCAPE, HEX0/HEX1 "
+                  "pieces and SWAR constants regenerated from source each run; bv_decide for the 64-bit chunk facts; differential "
+                  "run of escaping, \\u decoding and the scanner against the crate",
+        level_text="Machine-checked Lean 4 theorems: the table-driven format_escaped_str equals the statement's per-character "
+                   "escaping for every string and cuts its buffers only at ASCII bytes; decode_four_hex_digits equals the "
+                   "positional hex value or None for all 2^32 groups; SliceRead::skip_to_escape (64-bit SWAR + memchr2 branch + "
+                   "slow tail) returns the first escape index for every slice, index and mode. Tables and constants are "
+                   "re-extracted from src/ser.rs and src/read.rs on every run and the models are run against the real crate.",
+        level_note="Trusted: Lean kernel + propext/Classical.choice/Quot.sound + bv_decide axioms (4 calls); extract.py; the "
+                   "harness/driver comparison; memchr2 and Rust integer primitives by documented semantics. Partial: the string "
+                   "decoder itself (escapes, surrogate pairing, UTF-8 validation, borrowing) belongs to the parser machine and "
+                   "is not covered by this branch.",
+    ),
     "C18": dict(
         lean_targets=["SJ.Props.C18", "SJ.Audit.C18"],
         configs=dict(quick=["d"], thorough=["d", "po", "ap"]),
